@@ -56,6 +56,22 @@ class Walker:
                     return a & b
                 if isinstance(node.op, ast.LShift):
                     return a << b
+                if isinstance(node.op, ast.RShift):
+                    return a >> b
+                if isinstance(node.op, ast.BitXor):
+                    return a ^ b
+                if isinstance(node.op, ast.Add):
+                    return a + b
+                if isinstance(node.op, ast.Sub):
+                    return a - b
+                if isinstance(node.op, ast.Mult):
+                    return a * b
+                if isinstance(node.op, ast.FloorDiv) and b:
+                    return a // b
+        if isinstance(node, ast.UnaryOp) and isinstance(node.op, (ast.USub, ast.Invert, ast.UAdd)):
+            a = self.fold(node.operand, env)
+            if a is not None:
+                return -a if isinstance(node.op, ast.USub) else ~a if isinstance(node.op, ast.Invert) else a
         return None
 
     def pred(self, node, env=None):
@@ -121,6 +137,11 @@ class Walker:
             if b is None:
                 raise AnalysisError(f"N1: cannot fold {norm(node.right)}")
             return ("and" if isinstance(node.op, ast.BitAnd) else "shr", a, b)
+        if isinstance(node, ast.BinOp) and isinstance(node.op, ast.FloorDiv):
+            # division by a power of two is a right shift (the "lowest set bit of the mask" idiom: x // (M & -M))
+            b = self.fold(node.right, env)
+            if isinstance(b, int) and b > 0 and b & (b - 1) == 0:
+                return ("shr", self.sym(node.left, env), b.bit_length() - 1)
         if isinstance(node, ast.JoinedStr):
             parts = []
             for p in node.values:
@@ -178,7 +199,76 @@ class Walker:
         if isinstance(node, ast.Call) and isinstance(node.func, ast.Name) and node.func.id in env \
                 and env[node.func.id] == ("sortfn",) and len(node.args) == 1:
             return self.sym(node.args[0], env)
+        if isinstance(node, ast.Call) and isinstance(node.func, ast.Name) and isinstance(env.get(node.func.id), tuple) \
+                and env[node.func.id][:1] == ("fn",):
+            return self.call_fn(env[node.func.id][1], node, env, bound_self=False)
+        if isinstance(node, ast.Call) and isinstance(node.func, ast.Attribute) and isinstance(node.func.value, ast.Name) \
+                and node.func.value.id == "self" and node.func.attr in getattr(self, "methods", {}):
+            return self.call_fn(self.methods[node.func.attr], node, env, bound_self=True)
         raise AnalysisError(f"N1: unmodelled expression `{norm(node)}` at {self.mod.relpath}:{node.lineno}")
+
+    # ---- small helper functions (nested functions of the method, other methods of the class): evaluated symbolically
+    def call_fn(self, fn, call, env, bound_self, depth=0):
+        if depth > 4:
+            raise AnalysisError(f"N1: helper calls nested too deeply at {self.mod.relpath}:{call.lineno}")
+        params = [a.arg for a in fn.args.args]
+        if bound_self:
+            params = params[1:]
+        if fn.args.vararg or fn.args.kwarg or len(call.args) > len(params):
+            raise AnalysisError(f"N1: call `{norm(call)}` does not fit the helper's parameters at {self.mod.relpath}:{call.lineno}")
+        inner = dict(env)   # a nested function sees the enclosing bindings; a method sees module constants through fold()
+        if bound_self:
+            inner = {}
+        defaults = dict(zip(params[len(params) - len(fn.args.defaults):], fn.args.defaults))
+        vals = {}
+        for name, a in zip(params, call.args):
+            vals[name] = self.sym(a, env)
+        for k in call.keywords:
+            if k.arg not in params:
+                raise AnalysisError(f"N1: call `{norm(call)}` names an unknown parameter at {self.mod.relpath}:{call.lineno}")
+            vals[k.arg] = self.sym(k.value, env)
+        for name in params:
+            if name not in vals:
+                if name not in defaults:
+                    raise AnalysisError(f"N1: call `{norm(call)}` leaves `{name}` unbound at {self.mod.relpath}:{call.lineno}")
+                vals[name] = self.sym(defaults[name], {})
+        inner.update(vals)
+        return self.eval_block(list(fn.body), inner, fn)
+
+    def eval_block(self, stmts, env, fn):
+        """symbolic value returned by a block of assignments / ifs / returns (None result: falls off the end)"""
+        for i, st in enumerate(stmts):
+            rest = stmts[i + 1:]
+            if isinstance(st, ast.Expr) and isinstance(st.value, ast.Constant):
+                continue
+            if isinstance(st, ast.Return):
+                return self.sym(st.value, env) if st.value is not None else ("const", None)
+            if isinstance(st, ast.If):
+                p = self.pred(st.test, env)
+                if p[0] == "lit":
+                    return self.eval_block((st.body if p[1] else st.orelse) + rest, dict(env), fn)
+                return ("ite", p, self.eval_block(st.body + rest, dict(env), fn), self.eval_block(st.orelse + rest, dict(env), fn))
+            if isinstance(st, ast.Assign) and len(st.targets) == 1 and isinstance(st.targets[0], ast.Name):
+                env[st.targets[0].id] = self.sym(st.value, env)
+                continue
+            if isinstance(st, ast.Assign) and len(st.targets) == 1 and isinstance(st.targets[0], ast.Tuple) \
+                    and all(isinstance(e, ast.Name) for e in st.targets[0].elts):
+                self.bind_tuple(st.targets[0], self.sym(st.value, env), env, st)
+                continue
+            raise AnalysisError(f"N1: unmodelled statement `{norm(st).splitlines()[0]}` in helper {fn.name} at {self.mod.relpath}:{st.lineno}")
+        return ("const", None)
+
+    def bind_tuple(self, target, v, env, st):
+        def comp(x, i):
+            if x[0] == "tuple" and len(x[1]) == len(target.elts):
+                return x[1][i]
+            if x[0] == "row" and len(target.elts) == 2:
+                return ("name" if i == 0 else "desc", x[1], x[2])
+            if x[0] == "ite":
+                return ("ite", x[1], comp(x[2], i), comp(x[3], i))
+            raise AnalysisError(f"N1: tuple assignment from non-table at line {st.lineno}")
+        for i, e in enumerate(target.elts):
+            env[e.id] = comp(v, i)
 
     def walk(self, stmts, env, conds, rows):
         for i, st in enumerate(stmts):
@@ -220,15 +310,7 @@ class Walker:
                         env[t.id] = self.sym(st.value, env)
                     continue
                 if isinstance(t, ast.Tuple) and all(isinstance(e, ast.Name) for e in t.elts):
-                    v = self.sym(st.value, env)
-                    if v[0] == "tuple" and len(v[1]) == len(t.elts):
-                        for e, x in zip(t.elts, v[1]):
-                            env[e.id] = x
-                        continue
-                    if v[0] != "row" or len(t.elts) != 2:
-                        raise AnalysisError(f"N1: tuple assignment from non-table at line {st.lineno}")
-                    env[t.elts[0].id] = ("name", v[1], v[2])
-                    env[t.elts[1].id] = ("desc", v[1], v[2])
+                    self.bind_tuple(t, self.sym(st.value, env), env, st)
                     continue
             if isinstance(st, ast.Expr):
                 if isinstance(st.value, ast.Constant):
@@ -238,7 +320,12 @@ class Walker:
                     rows.append(self.sym(m["M_x"], env))
                     continue
             if isinstance(st, ast.FunctionDef):
-                env[st.name] = ("sortfn",)  # local helper `sort(bits)`: order only, checked separately
+                rs = [r for r in ast.walk(st) if isinstance(r, ast.Return)]
+                if len(rs) == 1 and isinstance(rs[0].value, ast.Call) and isinstance(rs[0].value.func, ast.Name) \
+                        and rs[0].value.func.id in ("sorted", "reversed", "list", "tuple"):
+                    env[st.name] = ("sortfn",)  # local helper `sort(bits)`: order only, checked separately
+                else:
+                    env[st.name] = ("fn", st)   # any other local helper is evaluated where it is called
                 continue
             raise AnalysisError(f"N1: unmodelled statement `{norm(st).splitlines()[0]}` at {self.mod.relpath}:{st.lineno}")
         self.leaves.append(Leaf(conds, None, rows, stmts[-1] if stmts else self.fn))
@@ -315,6 +402,24 @@ def reference_format(v):
     return "{T}.{TPM_RC_FMT0_ERROR_MAP[(v&0x7f)].name}"
 
 
+def resolve(s, v):
+    """the symbolic value for the concrete code v: conditional values take the arm v selects"""
+    if isinstance(s, tuple):
+        if s and s[0] == "ite":
+            return resolve(s[2] if holds(s[1], v) else s[3], v)
+        if s and s[0] in ("set", "unset", "zero", "lit", "not", "and_", "or"):
+            return s
+        return tuple(resolve(x, v) if isinstance(x, tuple) else x for x in s)
+    return s
+
+
+def resolve_row(r, v):
+    """a bit row with its name / details resolved for v (the mask stays)"""
+    if isinstance(r, tuple) and r and r[0] == "bit":
+        return ("bit", r[1], resolve(r[2], v) if isinstance(r[2], tuple) else r[2], resolve(r[3], v) if isinstance(r[3], tuple) else r[3])
+    return r
+
+
 def flatten(s):
     """inline nested f-strings so that `details` inside the outer f-string renders flat."""
     if isinstance(s, tuple) and s and s[0] == "f":
@@ -368,9 +473,13 @@ def check(run, project):
         run.ob("N1", ok, "__str__ delegates to __format__", "TPM_RC.__str__ no longer returns self.__format__(...)",
                module=mod, node=fns["__str__"], func="TPM_RC.__str__")
 
+    methods = {k: f for k, f in fns.items() if k not in helpers and k not in ("__format__", "attributes", "__str__", "__init__")
+               and not any(isinstance(d, ast.Name) and d.id in ("property", "staticmethod", "classmethod") for d in f.decorator_list)}
     wf = Walker(consts, mod, fns["__format__"], helpers)
+    wf.methods = methods
     wf.walk(fns["__format__"].body, {}, [], [])
     wa = Walker(consts, mod, fns["attributes"], helpers)
+    wa.methods = methods
     wa.walk(fns["attributes"].body, {}, [], [])
     # masks tested by conditions live in the low 12 bits (so the low-12 enumeration is exhaustive)
     for w in (wf, wa):
@@ -386,7 +495,7 @@ def check(run, project):
     n_fmt = n_rows = 0
     for v in domain:
         lf = leaf_for(wf.leaves, v)
-        got = render(flatten(lf.result)) if lf.result is not None else "None"
+        got = render(flatten(resolve(lf.result, v))) if lf.result is not None else "None"
         want = reference_format(v)
         n_fmt += 1
         if got != want:
@@ -409,8 +518,8 @@ def check(run, project):
             why = f"rows {[hex(m) for m in masks]}: overlap {overlap:#x}, missing {0xFFFFFFFF & ~total:#x}"
             bad_part.setdefault((id(la), why), [la, []])[1].append(v)
         # agreement with __format__ (same table/index mask, same number mask+shift)
-        fs = render(flatten(lf.result)) if lf.result is not None else ""
-        astr = " ".join(render(r) for r in rows)
+        fs = render(flatten(resolve(lf.result, v))) if lf.result is not None else ""
+        astr = " ".join(render(resolve_row(r, v)) for r in rows)
         for tbl in TABLES:
             in_f = [seg for seg in _lookups(fs) if seg.startswith(tbl)]
             in_a = [seg for seg in _lookups(astr) if seg.startswith(tbl)]
